@@ -60,10 +60,11 @@ class State:
 
 
 class Path:
-    def __init__(self, events, end, exc=None):
+    def __init__(self, events, end, exc=None, flags=None):
         self.events = events
-        self.end = end      # 'return' | 'raise' | 'fall'
+        self.end = end      # 'return' | 'raise' | 'fall' | 'exit' (no-return call such as os._exit)
         self.exc = exc
+        self.flags = flags or {}
 
     def kinds(self):
         return [e.kind for e in self.events]
@@ -92,7 +93,7 @@ class PathEnumerator:
     '''
 
     def __init__(self, fn, on_stmt=None, fallible=None, eval_test=None, unroll=1, max_states=20000,
-                 exc_parents=None, assert_forks=False, record_conds=True):
+                 exc_parents=None, assert_forks=False, record_conds=True, noreturn=None):
         self.fn = fn
         self.on_stmt = on_stmt or (lambda s, st: ())
         self._try_stack = []
@@ -106,6 +107,7 @@ class PathEnumerator:
             self.exc_parents.update(exc_parents)
         self.assert_forks = assert_forks
         self.record_conds = record_conds
+        self.noreturn = noreturn or (lambda s: False)
         self.nstates = 0
 
     def _implicit_fallible(self, s):
@@ -131,11 +133,13 @@ class PathEnumerator:
         res = []
         for kind, st in outs:
             if kind == 'next':
-                res.append(Path(st.events, 'fall'))
+                res.append(Path(st.events, 'fall', flags=st.flags))
             elif kind == 'return':
-                res.append(Path(st.events, 'return'))
+                res.append(Path(st.events, 'return', flags=st.flags))
+            elif kind == 'exit':
+                res.append(Path(st.events, 'exit', flags=st.flags))
             elif kind == 'raise':
-                res.append(Path(st.events, 'raise', st.exc))
+                res.append(Path(st.events, 'raise', st.exc, flags=st.flags))
             elif kind in ('break', 'continue'):
                 raise AnalysisError(f'{kind} outside loop in {getattr(self.fn, "name", "<lambda>")}')
         return res
@@ -358,6 +362,9 @@ class PathEnumerator:
             outs.append(('raise', st.add(Event('fail', s, exc)).raising(exc)))
         evs = tuple(self.on_stmt(s, st) or ())
         st2 = self._bind_effects(s, st.add(*evs) if evs else st)
+        if self.noreturn(s):
+            outs.append(('exit', st2.add(Event('exit', s))))
+            return outs
         outs.append((after or 'next', st2))
         return outs
 
@@ -502,6 +509,9 @@ class PathEnumerator:
         if not s.finalbody:
             return after_body
         for kind, o in after_body:
+            if kind == 'exit':
+                outs.append((kind, o))   # os._exit does not run finally blocks
+                continue
             for k2, o2 in self.block(s.finalbody, o.add(Event('finally', s, kind))):
                 if k2 == 'next':
                     outs.append((kind, o2))
